@@ -66,6 +66,7 @@ var legalEdges = map[[2]chord.State]bool{
 	{chord.Active, chord.Leaving}:      true,
 	{chord.Leaving, chord.Active}:      true,
 	{chord.Leaving, chord.Left}:        true,
+	{chord.Active, chord.Left}:         true, // the last node of a ring leaves without taking locks
 }
 
 func runCase(c ccase, rep *batch.Report) batch.CaseResult {
